@@ -252,9 +252,7 @@ func (p *prover) computeMemory() {
 		if l.isSt {
 			continue
 		}
-		if l.loc.kind == "elem" && !p.localSliceOK(l.sl) {
-			continue
-		}
+		nonLocal := l.loc.kind == "elem" && !p.localSliceOK(l.sl)
 		// latest dominating access to the same location with nothing that may write it in between
 		var best *acc
 		for j := range accs {
@@ -265,6 +263,9 @@ func (p *prover) computeMemory() {
 			if a.loc != l.loc || !types.Identical(a.t, l.t) {
 				continue
 			}
+			if nonLocal && a.isSt {
+				continue // only load->load equality for slices this function did not make
+			}
 			if !instrDominates(a.in, l.in) {
 				continue
 			}
@@ -273,7 +274,11 @@ func (p *prover) computeMemory() {
 				if mid == a.in {
 					continue
 				}
-				if p.mayWrite(mid, l.loc, l.t, l.sl) {
+				sl := l.sl
+				if nonLocal {
+					sl = nil
+				}
+				if p.mayWrite(mid, l.loc, l.t, sl) {
 					// the same store re-executed is fine only if it is a itself
 					clean = false
 					break
@@ -525,6 +530,31 @@ func (p *prover) condConstraints(cond ssa.Value, val bool) []constraint {
 				return []constraint{leq(b, a, why)}
 			case token.EQL:
 				return []constraint{leq(a, b, why), leq(b, a, why)}
+			case token.NEQ:
+				// x != c where x >= c is known (a length, or a counter with that lower bound): x >= c+1
+				d := a.sub(b)
+				for _, sgn := range []int64{1, -1} {
+					e := d.scale(sgn) // e != 0
+					if len(e.coef) == 1 {
+						for t, cf := range e.coef {
+							if cf != 1 {
+								continue
+							}
+							lbKnown := false
+							var lb int64
+							if strings.HasPrefix(t, "len(") {
+								lbKnown, lb = true, 0
+							} else if v, ok := p.termIndex().ints[t]; ok {
+								if l, ok := p.lowerBoundInt(v, 0); ok && l < 1<<40 {
+									lbKnown, lb = true, l
+								}
+							}
+							if lbKnown && lb+e.k == 0 {
+								return []constraint{leq(linConst(1), e, why+" (and the value is never below that)")}
+							}
+						}
+					}
+				}
 			}
 			return nil
 		}
